@@ -10,6 +10,10 @@ CHECKS = {
    technique="exhaustive enumeration of the (dt, start, end-form, m<=1000) lattice through the real compute()/constructor code, exact rational oracle",
    text="Every point of the finite (dt x start x end-form x m=0..1000) lattice is driven through the real Tempo/MeanFieldTempo.compute (continuing objects, stub tensor back-end) and PtTempo constructor, and for m<=6/12 through every public API with real tensor networks; step counts, every time label, sortedness and state/time alignment are compared with an exact-arithmetic oracle. Exhaustive within the lattice; says nothing about dt/start values outside it.",
    note="Trusts: exact Fraction/Decimal arithmetic as oracle; the stub back-end only replaces the tensor network (step counting and Dynamics are the real code); separately run truncated networks agree to ~epsrel (alignment tolerance 1e-6 at epsrel 1e-9)."),
+ "C03": dict(category="exploration", design="4/C03",
+   technique="exhaustive product of small alphabets (dimensions x steps x environment kind x transforms x caps x system x controls x all ordered environment lists) through the real compute_dynamics, compared at every step with a first-principles system+ancilla density-matrix simulation",
+   text="Every member of the full product of the stated finite alphabets (about 3.9k cases incl. all ordered sub-lists of a 4-environment pool and all orders of commuting environments) is run through the real compute_dynamics and must equal an independent exact joint simulation to 1e-10 at every step; summed-bath equivalence via PT-TEMPO at two epsrel values. Bounded-exhaustive over the alphabet, not over the continuum of unitaries/states.",
+   note="Trusts numpy/scipy expm and the reference simulator mc/refmodel.py (self-tested against a second formulation). Non-commuting environment lists are checked for the documented sequential semantics in each order; exact order independence only for commuting environments."),
 }
 NOT_YET = "check not built yet in this round (see DESIGN.md sec. 8 build order)"
 
